@@ -464,3 +464,140 @@ Fixpoint mrun (D : design) (ms : list meminst) (evs : list event) (s : mstate) :
   | [] => []
   | e :: r => let s' := mstep D ms e s in s' :: mrun D ms r s'
   end.
+
+(* ================= ClockSignal / ResetSignal (late-bound signals) =================
+   A late-bound signal is written as a pseudo signal of shape unsigned(1) whose index is
+   base + 3*d + k  (d the domain id):  k = 0 ClockSignal(d), k = 1 ResetSignal(d, allow_reset_less=True),
+   k = 2 ResetSignal(d).  DomainRenamer.on_ClockSignal / on_ResetSignal rewrite the domain;
+   DomainLowerer.on_ClockSignal / on_ResetSignal (run when a design is prepared for simulation) replace them by the
+   clock / reset signal of the resolved domain, Const(0) for an allowed missing reset, DomainError otherwise. *)
+Definition cs_index (base : nat) (d : dom) (k : nat) : nat := (base + (3 * d + k))%nat.
+Definition cs_decode (base i : nat) : option (dom * nat) :=
+  if Nat.ltb i base then None else Some (((i - base) / 3)%nat, ((i - base) mod 3)%nat).
+
+(* ValueTransformer: rebuild a value, replacing the signal leaves *)
+Fixpoint map_sig (f : nat -> shape -> expr) (e : expr) : expr :=
+  match e with
+  | EConst _ _ => e
+  | ESig i s => f i s
+  | EOp1 o a => EOp1 o (map_sig f a)
+  | EOp2 o a b => EOp2 o (map_sig f a) (map_sig f b)
+  | ESlice a lo hi => ESlice (map_sig f a) lo hi
+  | EPart a off w st => EPart (map_sig f a) (map_sig f off) w st
+  | ECat parts => ECat (map (map_sig f) parts)
+  | ESwitch t cs => ESwitch (map_sig f t) (map (fun c => (fst c, map_sig f (snd c))) cs)
+  end.
+(* StatementTransformer *)
+Fixpoint map_sig_stmt (f : nat -> shape -> expr) (s : stmt) : stmt :=
+  match s with
+  | SAssign l r => SAssign (map_sig f l) (map_sig f r)
+  | SSwitch t cs => SSwitch (map_sig f t) (map (fun c => (fst c, map (map_sig_stmt f) (snd c))) cs)
+  end.
+
+Definition ren_sig (base : nat) (rho : list (dom * dom)) (i : nat) (s : shape) : expr :=
+  match cs_decode base i with
+  | Some dk => ESig (cs_index base (rename_dom rho (fst dk)) (snd dk)) s
+  | None => ESig i s
+  end.
+
+(* DomainRenamer with the rewriting of values (statements and memory ports) *)
+Definition rename_mem_cs (base : nat) (rho : list (dom * dom)) (m : meminst) : meminst :=
+  let f := map_sig (ren_sig base rho) in
+  MI (mi_shape m) (mi_depth m) (mi_init m)
+     (map (fun p => WP (rename_dom rho (wp_dom p)) (f (wp_addr p)) (f (wp_data p)) (f (wp_en p))) (mi_wports m))
+     (map (fun p => RP (rename_dom rho (rp_dom p)) (f (rp_addr p)) (f (rp_data p)) (f (rp_en p)) (rp_transp p)) (mi_rports m)).
+Fixpoint domain_renamer_cs (base : nat) (rho : list (dom * dom)) (f : frag) : frag :=
+  match f with Frag st ms subs =>
+    Frag (rename_entries rho (map (fun e => (fst e, map (map_sig_stmt (ren_sig base rho)) (snd e))) st))
+         (map (rename_mem_cs base rho) ms) (map (domain_renamer_cs base rho) subs) end.
+
+(* FragmentTransformer.on_fragment re-creates the ports of every MemoryInstance it meets:
+   _ReadPort.__init__ asserts len(en) == 1 *)
+Definition mem_ports_ok (m : meminst) : bool := forallb (fun p => ewidth (rp_en p) =? 1) (mi_rports m).
+Definition frag_ports_ok (f : frag) : bool := forallb mem_ports_ok (frag_mems f).
+
+Definition apply_wrapper_cs (base : nat) (tab : sigtab) (f : option frag) (w : wrapper) : option frag :=
+  match f with
+  | None => None
+  | Some f =>
+      if frag_ports_ok f then
+        Some (match w with
+              | WReset ctl => reset_inserter tab ctl f
+              | WEnable ctl => enable_inserter ctl f
+              | WRename rho => domain_renamer_cs base rho f
+              end)
+      else None                               (* AssertionError *)
+  end.
+(* elaboration of a wrapped hierarchy; None = AssertionError out of a transformer *)
+Fixpoint elab_cs (base : nat) (tab : sigtab) (t : ftree) : option frag :=
+  match t with FT st ms wr subs =>
+    match (fix go (l : list ftree) : option (list frag) :=
+             match l with
+             | [] => Some []
+             | x :: r => match elab_cs base tab x, go r with
+                         | Some fx, Some fr => Some (fx :: fr)
+                         | _, _ => None
+                         end
+             end) subs with
+    | Some fs => fold_left (apply_wrapper_cs base tab) wr (Some (Frag st ms fs))
+    | None => None
+    end
+  end.
+
+(* DomainLowerer on values: ndom real domains 1..ndom are defined *)
+Definition lower_sig (base : nat) (doms : domtab) (i : nat) (s : shape) : expr :=
+  match cs_decode base i with
+  | Some dk =>
+      match snd dk with
+      | O => ESig (d_clk (doms (fst dk))) (Sh 1 false)
+      | _ => match d_rst (doms (fst dk)) with
+             | Some r => ESig r (Sh 1 false)
+             | None => EConst 0 (Sh 1 false)
+             end
+      end
+  | None => ESig i s
+  end.
+(* does resolving this pseudo signal raise DomainError? *)
+Definition lower_bad (base ndom : nat) (doms : domtab) (i : nat) : bool :=
+  match cs_decode base i with
+  | Some dk =>
+      Nat.eqb (fst dk) 0 || Nat.ltb ndom (fst dk) ||
+      (Nat.eqb (snd dk) 2 && match d_rst (doms (fst dk)) with Some _ => false | None => true end)
+  | None => false
+  end.
+
+Fixpoint expr_sigs (e : expr) : list nat :=
+  match e with
+  | EConst _ _ => []
+  | ESig i _ => [i]
+  | EOp1 _ a => expr_sigs a
+  | EOp2 _ a b => expr_sigs a ++ expr_sigs b
+  | ESlice a _ _ => expr_sigs a
+  | EPart a off _ _ => expr_sigs a ++ expr_sigs off
+  | ECat parts => flat_map expr_sigs parts
+  | ESwitch t cs => expr_sigs t ++ flat_map (fun c => expr_sigs (snd c)) cs
+  end.
+Fixpoint stmt_all_sigs (s : stmt) : list nat :=
+  match s with
+  | SAssign l r => expr_sigs l ++ expr_sigs r
+  | SSwitch t cs => expr_sigs t ++ flat_map (fun c => flat_map stmt_all_sigs (snd c)) cs
+  end.
+Definition mem_all_sigs (m : meminst) : list nat :=
+  flat_map (fun p => expr_sigs (wp_addr p) ++ expr_sigs (wp_data p) ++ expr_sigs (wp_en p)) (mi_wports m) ++
+  flat_map (fun p => expr_sigs (rp_addr p) ++ expr_sigs (rp_data p) ++ expr_sigs (rp_en p)) (mi_rports m).
+
+Definition lower_entry (base : nat) (doms : domtab) (e : dom * list stmt) : dom * list stmt :=
+  (fst e, map (map_sig_stmt (lower_sig base doms)) (snd e)).
+Definition lower_mem (base : nat) (doms : domtab) (m : meminst) : meminst :=
+  let f := map_sig (lower_sig base doms) in
+  MI (mi_shape m) (mi_depth m) (mi_init m)
+     (map (fun p => WP (wp_dom p) (f (wp_addr p)) (f (wp_data p)) (f (wp_en p))) (mi_wports m))
+     (map (fun p => RP (rp_dom p) (f (rp_addr p)) (f (rp_data p)) (f (rp_en p)) (rp_transp p)) (mi_rports m)).
+
+(* what preparing the design for simulation raises: 1 AssertionError (memory port re-created with a wide enable),
+   2 DomainError (undefined domain of a process / port / late-bound signal, strict reset of a reset-less domain) *)
+Definition prepare_error (base ndom : nat) (doms : domtab) (f : frag) : Z :=
+  if negb (frag_ports_ok f) then 1
+  else if existsb (lower_bad base ndom doms)
+            (flat_map (fun e => flat_map stmt_all_sigs (snd e)) (flatten f) ++ flat_map mem_all_sigs (frag_mems f))
+       then 2 else 0.
